@@ -255,6 +255,22 @@ func runC13(ctx *core.Ctx) {
 		if n == 0 {
 			ctx.Bad("T4", shortFn(scan)+"#remove", scan.Pos(), "no removal found in the directory scan")
 		}
+		// the directory is listed completely and closed before anything is removed
+		okList := false
+		for _, rd := range sg.Calls("(*os.File).Readdirnames", "os.ReadDir") {
+			okList = true
+			for _, rm := range sg.Calls("os.Remove", "os.RemoveAll") {
+				if !sg.Dominates(rd, rm) {
+					okList = false
+				}
+			}
+			if ssax.CalleeName(&rd.Call) == "(*os.File).Readdirnames" {
+				if k, isK := ssax.ConstInt(rd.Call.Args[1]); !isK || k > 0 {
+					okList = false // a positive count lists only part of the directory
+				}
+			}
+		}
+		ctx.Check(okList, "T5", shortFn(scan)+"#list-then-remove", scan.Pos(), "all names of the sub-directory are read (Readdirnames(-1)) before the first removal, so removals cannot disturb the listing and every stale entry is seen")
 	}
 	// ---- T6
 	wr := g.Calls(core.ModPath + "/lockedfile.Write")
